@@ -110,8 +110,9 @@ func typedValue(r *lib.Rng, tag string) json.RawMessage {
 		for i := range groups {
 			groups[i] = dastard.GroupIndex{Firstchan: i * 100, Nchan: r.Range(1, 64)}
 		}
+		ns := r.Range(2, 10000) // as ConfigurePulseLengths accepts them: 0 < Npresamp < Nsamples
 		return raw(dastard.ServerStatus{Running: r.Bool(), SourceName: pickS(r, []string{"", "Triangles", "SimPulses", "Lancero", "Abaco"}),
-			Nchannels: r.Range(0, 64), Nsamples: r.Range(2, 10000), Npresamp: r.Range(1, 5000),
+			Nchannels: r.Range(0, 64), Nsamples: ns, Npresamp: r.Range(1, ns-1),
 			SamplePeriod: time.Duration(r.Range(1, 100000)) * time.Nanosecond, ChanGroups: groups,
 			ChannelsWithProjectors: ints(r, 3, 0, 63)})
 	case "WRITING":
@@ -120,7 +121,7 @@ func typedValue(r *lib.Rng, tag string) json.RawMessage {
 			"ExperimentStateFilename": word(r), "ExperimentStateLabel": word(r), "ExperimentStateLabelUnixNano": r.Range(0, 1<<40),
 			"ExternalTriggerFilename": word(r), "DataDropFilename": word(r)})
 	case "TESMAPFILE":
-		return raw("/maps/" + word(r) + ".txt")
+		return raw(pickS(r, []string{"maps/m1.txt", "maps/m2.txt", "maps/m3.txt"})) // files the restarted dastard can load
 	case "TRIGGER":
 		n := r.Range(0, 3)
 		fts := make([]dastard.FullTriggerState, n)
@@ -236,6 +237,9 @@ func genHist(r *lib.Rng, id int64, tier string, withSaves bool) Case {
 				}
 				c.Ops = append(c.Ops, Op{Op: "W"})
 				waits++
+				if r.Chance(1, 3) {
+					c.Ops = append(c.Ops, Op{Op: "R"})
+				}
 			}
 		}
 	}
@@ -266,6 +270,9 @@ func genDirect(r *lib.Rng, id int64, tier string) Case {
 		}
 	}
 	c.Ops = append(c.Ops, Op{Op: "S"})
+	if r.Chance(1, 4) {
+		c.Ops = append(c.Ops, Op{Op: "R"})
+	}
 	return c
 }
 
@@ -289,12 +296,20 @@ func corpus() []Case {
 		// every persisted structure, saved twice, with a backup and a left-over temporary file in place
 		{Mode: "direct", Dir: dirSpec{Init: map[string]OpVal{"STATELABEL": {Val: raw("old")}},
 			Bak: map[string]OpVal{"STATELABEL": {Val: raw("older")}}, TmpLeft: "truncated: [1, 2", Other: "x\n"},
-			Ops: append(append(all(), Op{Op: "S"}), append(all(), Op{Op: "S"})...)},
+			Ops: append(append(all(), Op{Op: "S"}, Op{Op: "R"}), append(all(), Op{Op: "S"}, Op{Op: "R"})...)},
 		// fresh installation: empty main file
 		{Mode: "direct", Ops: []Op{{Op: "S"}, {Op: "U", Tag: "TRIGGER", Typed: true, Val: typedValue(r, "TRIGGER")}, {Op: "S"}}},
 		// main file gone while dastard runs
 		{Mode: "direct", Dir: dirSpec{Init: map[string]OpVal{"STATELABEL": {Val: raw("old")}}, MainMissing: true},
 			Ops: []Op{{Op: "U", Tag: "STATELABEL", Val: raw("new")}, {Op: "S"}, {Op: "S"}}},
+		// configurations that ConfigureTriangleSource / ConfigureSimPulseSource reject are published and saved
+		// all the same; before the fix the next start-up panicked on them
+		{Mode: "direct", Ops: []Op{{Op: "U", Tag: "TRIANGLE", Typed: true,
+			Val: raw(dastard.TriangleSourceConfig{Nchan: 5, SampleRate: 1000, Min: 586, Max: 53363})}, {Op: "S"}, {Op: "R"}}},
+		{Mode: "direct", Ops: []Op{{Op: "U", Tag: "SIMPULSE", Typed: true,
+			Val: raw(dastard.SimPulseSourceConfig{Nchan: 2, SampleRate: 10, Pedestal: 100, Amplitudes: []float64{1000, 2000}, Nsamp: 1000})},
+			{Op: "U", Tag: "TRIANGLE", Typed: true, Val: raw(dastard.TriangleSourceConfig{Nchan: 2, SampleRate: 1000, Min: 9, Max: 3})},
+			{Op: "S"}, {Op: "R"}}},
 		// SENDALL: nothing yet; repeats; unchanged values; events and comment keys; volatile topics
 		{Mode: "hist", Ops: []Op{{Op: "SA"},
 			{Op: "U", Tag: "STATUS", Typed: true, Val: st(1000, 250)}, {Op: "U", Tag: "STATUS", Typed: true, Val: st(1000, 250)},
@@ -306,7 +321,7 @@ func corpus() []Case {
 		// the updater's own delayed save, twice, and what the next start-up reads
 		{Mode: "hist", Dir: dirSpec{Init: map[string]OpVal{"STATELABEL": {Val: raw("old")}, "somekey": {Val: raw(3)}}},
 			Ops: append(append(all(), Op{Op: "W"}, Op{Op: "SA"}, Op{Op: "U", Tag: "ALIVE", Val: raw(5)}),
-				append(all(), Op{Op: "W"}, Op{Op: "SA"})...)},
+				append(all(), Op{Op: "W"}, Op{Op: "R"}, Op{Op: "SA"})...)},
 		// a volatile topic does not make a save due
 		{Mode: "hist", Ops: []Op{{Op: "U", Tag: "STATELABEL", Val: raw("a")}, {Op: "W"}, {Op: "U", Tag: "STATELABEL", Val: raw("b")}, {Op: "W"}, {Op: "SA"}}},
 	}
